@@ -63,6 +63,11 @@ def gen_cases(tier, seed):
         for k_ in range(4):
             j += 1
             yield {'family': 'same_type_written_differently', 'idx': 10 ** 6 + j, 'seed': seed, 'combo': k_}
+        # a row the dumper validates but cannot WRITE (an object cell holding a date, csv), and a later step that ends the
+        # resource quietly when reading it fails: nothing that claims to be the stream may be committed
+        for k_ in range(2):
+            j += 1
+            yield {'family': 'writer_failure_then_tolerant_step', 'idx': 10 ** 6 + j, 'seed': seed, 'combo': k_}
         # a dump into a directory that already holds an earlier dump of OTHER data captures the rows that pass it now
         for k_ in range(4):
             j += 1
@@ -317,6 +322,61 @@ def run_same_type_twins(case):
                 sample={'config': cfg})
 
 
+def run_writer_failure(case):
+    import datetime
+    import json as json_
+    import zipfile
+    d = lab.df()
+    counters = {'downstream_compared': 0, 'observer_content_compared': 0, 'finalizer_calls_checked': 0}
+    kind = ['dump_to_path', 'dump_to_zip'][case['combo'] & 1]
+    N, BAD = 8, 5
+    rows = [{'id': i, 'payload': dict({'n': i}, **({'at': datetime.date(2020, 1, i + 1)} if i == BAD else {}))} for i in range(N)]
+    F = [{'name': 'id', 'type': 'integer'}, {'name': 'payload', 'type': 'object'}]
+
+    def tolerant(rows):
+        try:
+            yield from rows
+        except Exception:
+            return
+    out = 'wf_out' if kind == 'dump_to_path' else 'wf_out.zip'
+    cfg = {'observer': kind, 'row_the_writer_cannot_write': BAD, 'rows': N, 'later_step': 'ends the resource quietly on an error'}
+    raised = None
+    try:
+        with boot.quiet():
+            d.Flow(lab.source('ev', F, rows), lab.source('other', [{'name': 'key', 'type': 'string'}], [{'key': 'k%d' % i} for i in range(3)]),
+                   getattr(d, kind)(out), tolerant).process()
+    except Exception as e:
+        raised = e
+    viol = []
+    desc = None
+    try:
+        if kind == 'dump_to_path':
+            desc = json_.load(open(os.path.join(out, 'datapackage.json')))
+            read = lambda p_: open(os.path.join(out, p_), 'rb').read()        # noqa: E731
+        else:
+            z = zipfile.ZipFile(out)
+            desc = json_.loads(z.read('datapackage.json'))
+            read = z.read
+    except Exception:
+        desc = None
+    counters['observer_content_compared'] += 1
+    if desc is not None:
+        for r in desc.get('resources', []):
+            want = N if r['name'] == 'ev' else 3
+            try:
+                have = len(read(r['path']).decode('utf-8').splitlines()) - 1
+            except Exception:
+                have = None
+            if have != want:
+                viol.append({'kind': 'observer_content', 'mech': '%s/committed_without_its_rows' % kind, 'observer': kind,
+                             'msg': '%r: the dump was committed (datapackage.json written%s) with %s of the %d rows of %r'
+                             % (cfg, '' if raised is None else ', the run raised', 'no data file' if have is None else have, want, r['name'])})
+                break
+    return dict(nontrivial=True, violations=viol, counters=counters,
+                cov={'observer_x_discarder_x_pos': {'%s|writer_failure_then_tolerant_step/%s|middle'
+                                                    % (kind, 'raised' if raised is not None else 'returned'): 1}}, sample={'config': cfg})
+
+
 def run_dump_again(case):
     d = lab.df()
     rng = boot.rng(case['seed'], 'C05', 'dump_again', case['idx'])
@@ -397,6 +457,8 @@ def run_case(case):
         return run_stream_names(case)
     if case['family'] == 'dump_again_other_data':
         return run_dump_again(case)
+    if case['family'] == 'writer_failure_then_tolerant_step':
+        return run_writer_failure(case)
     if case['family'] == 'same_type_written_differently':
         return run_same_type_twins(case)
     if case['family'] == 'observer_rerun':
